@@ -780,9 +780,9 @@ func (rn *runner) report(b *Batch, fs []finding, doShrink bool) {
 		rn.rmu.Lock()
 		rn.res.Count("finding:" + f.oracle)
 		rn.res.Violate(common.Violation{Kind: f.kind, Oracle: f.oracle,
-			Input:  map[string]string{"spec": string(j), "scripts_text": txt.String()},
-			Model:  f.model, Impl: f.impl, Detail: f.detail,
-			Key:    f.oracle + ":" + specKey(mb)})
+			Input: map[string]string{"spec": string(j), "scripts_text": txt.String()},
+			Model: f.model, Impl: f.impl, Detail: f.detail,
+			Key: f.oracle + ":" + specKey(mb)})
 		rn.rmu.Unlock()
 	}
 }
